@@ -29,7 +29,8 @@ RULE = ("path/method sets x tag assignments (none, one, several, case/punctuatio
 ASSUMPTIONS = ["tag clients are matched to spec tags by alphanumeric-only case-folded comparison of the APIClient property name"]
 
 RENDERINGS = ["json", "json", "yaml_block", "yaml_flow", "yaml_intkeys"]
-TAG_VARIANTS = [["pets"], ["Pets"], ["user-admin"], ["user_admin"], ["User Admin"], ["store"], ["PETS"]]
+TAG_VARIANTS = [["pets"], ["Pets"], ["user-admin"], ["user_admin"], ["User Admin"], ["store"], ["PETS"],
+                ["petstore"], ["petStore"], ["DataSources"], ["datasources"], ["data_sources"]]   # same tag, different word splits
 
 
 def norm(s: str) -> str:
